@@ -1,0 +1,17 @@
+//go:build verif
+
+package lang
+
+// Contracts for the goverif VC generator (/verif). Comment-only file: it adds no code.
+
+//@ func isValidElementIndex [C16 C19]
+//@   requires length >= 0
+//@   ensures imp(result1 == nil, 0 <= result && result < length)
+//@   ensures imp(result1 == nil && $atoi(key) >= 0, result == $atoi(key))
+//@   ensures imp(result1 == nil && $atoi(key) < 0, result == $atoi(key) + length)
+//@   ensures imp(!$atoiOk(key), result1 != nil)
+//@   ensures imp($atoiOk(key) && ($atoi(key) >= length || $atoi(key) < -length), result1 != nil)
+//@   ensures imp($atoiOk(key) && -length <= $atoi(key) && $atoi(key) < length, result1 == nil)
+
+//@ func itoIndexArray [C16 C19]
+//@   requires p != nil && p.Stdout != nil
